@@ -6,6 +6,7 @@ import YangVerif.Drv.C17
 import YangVerif.Drv.C10
 import YangVerif.Drv.C05
 import YangVerif.Drv.C11
+import YangVerif.Drv.Data
 
 def dispatch (line : String) : String :=
   match (line.trimAscii.toString.splitOn " ").filter (· ≠ "") with
@@ -13,6 +14,7 @@ def dispatch (line : String) : String :=
   | "c10" :: rest => YangVerif.Drv.C10.handle rest
   | "c05" :: rest => YangVerif.Drv.C05.handle rest
   | "c11" :: rest => YangVerif.Drv.C11.handle rest
+  | "data" :: rest => YangVerif.Drv.Data.handle rest
   | _ => "bad-op"
 
 partial def loop (h : IO.FS.Stream) (out : IO.FS.Stream) : IO Unit := do
